@@ -9,6 +9,7 @@ pub mod c07;
 pub mod c08;
 pub mod c09;
 pub mod c10;
+pub mod c12;
 pub mod c13;
 pub mod c14;
 pub mod c16;
@@ -33,6 +34,7 @@ pub fn meta(id: &str) -> Option<Meta> {
         "C08" => c08::meta(),
         "C09" => c09::meta(),
         "C10" => c10::meta(),
+        "C12" => c12::meta(),
         "C13" => c13::meta(),
         "C14" => c14::meta(),
         "C15" => c15::meta(),
@@ -61,6 +63,7 @@ pub fn run_worker(id: &str, ctx: &Ctx, rep: &mut Report) {
         "C08" => c08::run(ctx, rep),
         "C09" => c09::run(ctx, rep),
         "C10" => c10::run(ctx, rep),
+        "C12" => c12::run(ctx, rep),
         "C13" => c13::run(ctx, rep),
         "C14" => c14::run(ctx, rep),
         "C15" => c15::run(ctx, rep),
@@ -91,6 +94,7 @@ pub fn replay(id: &str, case: &serde_json::Value) -> Result<Option<String>, Stri
         "C02" => c02::replay(case),
         "C06" => c06::replay(case),
         "C09" => c09::replay(case),
+        "C12" => c12::replay(case),
         "C13" => c13::replay(case),
         "C14" => c14::replay(case),
         "C16" => c16::replay(case),
